@@ -162,11 +162,23 @@ def mask_completeness(ctx, rep, rule: str) -> None:
     exist = {"masked_momentum_list": lambda e: e["momentum"] != 0.0, "masked_filtered_grad_list": lambda e: e["betas"][0] != 0.0, "masked_blocked_params": lambda e: True}
     grp = [a.arg for a in msl.node.args.args][-1]
 
+    # the grafting configurations a group may carry: None and one instance of every concrete class of the hierarchy, mirrored
+    # as empty classes so that isinstance / type(...) is / == decide exactly as they do on the repository's classes
+    from ..guards import shadow_hierarchy
+
+    graft_base = repo.cls("distributed_shampoo.shampoo_types:GraftingConfig")
+    shadow = shadow_hierarchy(repo, graft_base)
+    graft_values = [None] + [shadow[c.qual]() for c in repo.concrete_subclasses(graft_base)]
+    rep.floor(rule, "concrete grafting configuration classes", len(graft_values) - 1, 4)
+
     def resolve(name):
         d = repo.resolve_dotted(m, name)
         ok, v = repo.const_by_dotted(d)
         if ok:
             return v
+        ci = repo.class_by_dotted(d)
+        if ci is not None and ci.qual in shadow:
+            return shadow[ci.qual]
         raise Unsupported(name)
 
     for k in masked_slots:
@@ -176,7 +188,7 @@ def mask_completeness(ctx, rep, rule: str) -> None:
             continue
         conds = [(t, p) for t, p in _conds(cfg, cfg.node_of(n)) if grp in A.names_in(t)]
         bad = []
-        for mom, b1, graft in itertools.product([0.0, 0.5], [0.0, 0.9], [None, "cfg"]):
+        for mom, b1, graft in itertools.product([0.0, 0.5], [0.0, 0.9], graft_values):
             env = {grp: {"momentum": mom, "betas": (b1, 0.99), "grafting_config": graft}}
             try:
                 it = Interp(env, resolve_name=resolve)
@@ -196,14 +208,14 @@ def mask_completeness(ctx, rep, rule: str) -> None:
             nm, key = A.subscript_key(repo, m, c.func.value)
             conds = [(t, p) for t, p in _conds(cfg, cfg.node_of(c)) if grp in A.names_in(t)]
             bad = []
-            for graft in (None, "cfg"):
+            for graft in graft_values:
                 env = {grp: {"momentum": 0.5, "betas": (0.9, 0.99), "grafting_config": graft}}
                 it = Interp(env, resolve_name=resolve)
                 fires = all(bool(it.ev(t)) == p for t, p in conds)
                 want = True if key == "shampoo_preconditioner_list" else (graft is not None)
                 if fires != want:
-                    bad.append(graft)
-            rep.ob(rule, f"remask:state_lists[{key}].compress_preconditioner_list", not bad, msl.loc(c), f"the {key} is re-masked exactly when it exists", sample=True)
+                    bad.append(type(graft).__name__ if graft is not None else "None")
+            rep.ob(rule, f"remask:state_lists[{key}].compress_preconditioner_list", not bad, msl.loc(c), f"the {key} is re-masked exactly when it exists (a grafting list exists for every grafting configuration other than None)" + (f"; the guard disagrees for grafting_config of {bad}" if bad else ""), sample=True)
     n_calls = sum(1 for c in A.calls(msl.node) if isinstance(c.func, ast.Attribute) and c.func.attr == "compress_preconditioner_list")
     rep.floor(rule, "_mask_state_lists re-masks the preconditioner lists", n_calls, 2)
     # ---- early-return / change-detection guards
@@ -543,6 +555,9 @@ def run(ctx, rep) -> None:
     rep.attempt("writes_to_masked_only", writes_to_masked_only, ctx, rep, "C04.3")
     rep.attempt("empty_group_skips", empty_group_skips, ctx, rep, "C04.4")
     rep.attempt("every_group_visited", every_group_visited, ctx, rep, "C04.4")
+    from .common import per_group_fresh
+
+    rep.attempt("per_group_fresh", per_group_fresh, ctx, rep, "C04.4", [f"{DS}.{n}" for n in ("_instantiate_distributor", "_instantiate_steps", "_instantiate_momentum", "_instantiate_filtered_grads")])
     rep.rule("C04.6", "step(closure): gradient presence is read (blocking, selector, masking) only after the closure has produced this step's gradients")
     rep.attempt("gradients_read_after_closure", gradients_read_after_closure, ctx, rep, "C04.6")
     rep.attempt("selector_construction", selector_construction, ctx, rep, "C04.5")
